@@ -198,6 +198,23 @@ def fold(e, env=None):
             if not isinstance(pat, str):
                 raise NotConst("pattern not str")
             return Regex(pat, int(flags))
+        if ftxt in ("re.search", "re.match", "re.fullmatch") and 2 <= len(e.args) <= 3:
+            args = [fold(a, env) for a in e.args]
+            flags = args[2] if len(args) > 2 else 0
+            for k in e.keywords:
+                if k.arg == "flags":
+                    flags = fold(k.value, env)
+            pat = args[0].pattern if isinstance(args[0], Regex) else args[0]
+            if not isinstance(pat, str) or not isinstance(args[1], str):
+                raise NotConst("re call on non-strings")
+            try:
+                m = getattr(re, ftxt.split(".")[1])(pat, args[1], int(flags))
+            except re.error as ex:
+                raise NotConst("bad regex: %s" % ex)
+            return m is not None
+        if ftxt in ("any", "all") and len(e.args) == 1 and not e.keywords:
+            seq = fold(e.args[0], env)
+            return any(seq) if ftxt == "any" else all(seq)
         if ftxt in ("OrderedDict", "dict", "collections.OrderedDict") and len(e.args) <= 1:
             out = {}
             if e.args:
